@@ -154,6 +154,7 @@ def make_case(rng, cid, scheme, tier, opts=None):
         c.set("pt.%d" % j, [rf(rng, p) if rng.random() < 0.3 else rf_uniform(rng, p) for _ in range(dim)])
     c.set("sponge_pre", [rf_uniform(rng, p) for _ in range(rng.randint(0, 2))])
     c.meta.update({"scheme": scheme, "shapes": shapes, "in_domain": True, "n": n, "npts": npts, "polys_equal": _equal_pairs(polys, p),
+                   "bounds_sorted": sorted(set(bounds_list)) if bounds_list else [], "eff_s": eff_s, "s": s, "D": D,
                    "const": [_is_const(scheme, q, p) for q in polys],
                    "zero": [_is_zero(scheme, q, p) for q in polys]})
     return c
@@ -330,10 +331,40 @@ def add_mutations(rng, c, profile):
                 if any(not c.meta["const"][i] for i in sel):
                     put(t, "sponge_pre", [rf_uniform(rng, p)], "reject")
             if profile in ("c04",) and scheme in ("marlin", "sonic", "ipa"):
+                z = int(c.fields["pt.%d" % op["pt"]][0]) % p
                 for k in sel:
-                    if c.fields["bound.%d" % k][0] != "none":
-                        put(t, "comm_mut", [k, "drop_shifted"], "reject")
-                        put(t, "comm_mut", [k, "drop_shifted_keep_bound"], "reject")
+                    bk = c.fields["bound.%d" % k][0]
+                    if bk == "none":
+                        continue
+                    coeffs = [int(x) for x in c.fields["poly.%d" % k]]
+                    v = sum(co * pow(z, e, p) for e, co in enumerate(coeffs)) % p
+                    hid = c.fields["hiding.%d" % k][0] != "none"
+                    generic = (not c.meta["const"][k]) and v != 0 and z not in (0, 1, p - 1)
+                    # a bound equal to the maximum (Sonic: shift by beta^0) / supported (IPA) degree shifts by nothing
+                    top_bound = int(bk) == (c.meta["D"] if scheme != "ipa" else c.meta["eff_s"])
+                    generic = generic and not top_bound
+                    hid = hid and not top_bound
+                    if scheme != "sonic":
+                        # the degree-bound part is dropped (with / without keeping the label)
+                        put(t, "comm_mut", [k, "drop_shifted"], "reject" if (generic or hid) and scheme != "marlin" else "reject?", "drop")
+                        if scheme == "marlin":
+                            put(t, "comm_mut", [k, "drop_shifted_keep_bound"], "reject")
+                            put(t, "comm_mut", [k, "swap_parts"], "reject?", "swap")
+                    else:
+                        put(t, "comm_mut", [k, "drop_bound"], "reject" if generic or hid else "reject?", "drop")
+                    # presented under another enforced bound
+                    bl = c.meta.get("bounds_sorted") or []
+                    others = [b for b in bl if b != int(bk)]
+                    if scheme == "ipa":
+                        others = [b for b in range(1, c.meta["eff_s"] + 1) if b != int(bk)][:]
+                    if others:
+                        b2 = rng.choice(others)
+                        ok = generic and pow(z, abs(b2 - int(bk)), p) != 1
+                        put(t, "comm_mut", [k, "relabel_bound", b2], "reject" if ok and scheme != "marlin" else "reject?", "relabel")
+                    # the shifted part of another polynomial with the same bound
+                    same = [j for j in range(n) if j != k and c.fields["bound.%d" % j][0] == bk and (k, j) not in eq]
+                    if same:
+                        put(t, "comm_swap", [k, rng.choice(same)], "reject")
         elif op["kind"] == "batch":
             nq = len(set((i, c.fields["pt.%d" % pj][0] if True else 0, tuple(c.fields["pt.%d" % pj])) for i, _, pj in op["qs"]))
             nkeys = len(set((i, tuple(c.fields["pt.%d" % pj])) for i, _, pj in op["qs"]))
@@ -373,12 +404,64 @@ def add_mutations(rng, c, profile):
     return c
 
 
+def inject_bound_violation(rng, c):
+    """turns one polynomial of an honest marlin/sonic/ipa scenario into a request the committer must
+    refuse (C04 / C17).  Returns the description or None."""
+    scheme = c.meta["scheme"]
+    p = FIELD[scheme]
+    n = c.meta["n"]
+    s, eff_s, D = c.meta["s"], c.meta["eff_s"], c.meta["D"]
+    bl = c.meta["bounds_sorted"]
+    i = rng.randrange(n)
+    kinds = []
+    if scheme in ("marlin", "sonic"):
+        if bl:
+            if any(b + 1 <= s for b in bl):
+                kinds.append("deg_gt_bound")
+            if [b for b in range(1, s + 1) if b not in bl]:
+                kinds.append("bound_not_enforced")
+        else:
+            kinds.append("no_bounds_in_key")
+        kinds.append("deg_gt_supported")
+    else:
+        kinds += ["deg_gt_bound_ipa", "bound_gt_supported_ipa", "deg_gt_supported"]
+    kind = rng.choice(kinds)
+    top = lambda length: [rf_uniform(rng, p) for _ in range(length)]
+    if kind == "deg_gt_bound":
+        b = rng.choice([b for b in bl if b + 1 <= s])
+        c.set("poly.%d" % i, top(b + 2)).set("bound.%d" % i, b)
+    elif kind == "bound_not_enforced":
+        b = rng.choice([b for b in range(1, s + 1) if b not in bl])
+        c.set("poly.%d" % i, top(rng.randint(1, b + 1))).set("bound.%d" % i, b)
+    elif kind == "no_bounds_in_key":
+        b = rng.randint(1, s)
+        c.set("poly.%d" % i, top(rng.randint(1, b + 1))).set("bound.%d" % i, b)
+    elif kind == "deg_gt_supported":
+        c.set("poly.%d" % i, top(eff_s + 1 + rng.randint(1, 2))).set("bound.%d" % i, "none").set("hiding.%d" % i, "none")
+    elif kind == "deg_gt_bound_ipa":
+        if eff_s < 2:
+            return None
+        b = rng.randint(1, eff_s - 1)
+        c.set("poly.%d" % i, top(b + 2)).set("bound.%d" % i, b)
+    elif kind == "bound_gt_supported_ipa":
+        b = eff_s + rng.randint(1, 3)
+        c.set("poly.%d" % i, top(rng.randint(1, eff_s + 1))).set("bound.%d" % i, b)
+    c.meta["in_domain"] = False
+    c.meta["refuse"] = {"poly": i, "why": kind}
+    c.meta["shapes"].append("%s:refuse:%s" % (scheme, kind))
+    return kind
+
+
 def gen(rng, tier, profile, count, schemes=ALL):
     cases = []
+    if profile == "c04":
+        schemes = ("marlin", "sonic", "ipa")
     for k in range(count):
         scheme = schemes[k % len(schemes)]
         cid = "%s-%s-%d" % (profile, scheme, k)
         c = make_case(rng, cid, scheme, tier)
+        if profile == "c04" and rng.random() < 0.3:
+            inject_bound_violation(rng, c)
         if profile == "c06":
             add_history(rng, c, kinds=("lc",), nops=rng.randint(1, 2))
         elif profile == "c11":
